@@ -57,6 +57,13 @@ pub struct Scenario {
     /// that succeeds when it runs alone must succeed next to the other one
     #[serde(default)]
     pub missing_parent: bool,
+    /// a file next to the output whose name is the output's plus this suffix (".lock", ".tmp",
+    /// ".bak", "~"): what a killed run of some tool may have left; nobody holds it
+    #[serde(default)]
+    pub stale_sibling: Option<String>,
+    /// TMPDIR points at the directory the output goes to (a build directory used for everything)
+    #[serde(default)]
+    pub tmpdir_is_outdir: bool,
 }
 fn out_default() -> String {
     OUT_REL.to_string()
@@ -296,6 +303,8 @@ pub fn scenario_shape(tier: &str, base_seed: u64, g: u64) -> Scenario {
             config: "sweep".into(),
             out_rel: OUT_REL.to_string(),
             missing_parent: false,
+            stale_sibling: None,
+            tmpdir_is_outdir: false,
         };
     }
     let writer = if r.chance(1, 2) { "code" } else { "eeprom" };
@@ -354,7 +363,9 @@ pub fn scenario_shape(tier: &str, base_seed: u64, g: u64) -> Scenario {
                 fill_seed: seed ^ 0xD00,
                 strategy: ["uniform", "sticky", "lockstep"][r.usize(3)].to_string(),
                 sched_seed: seed ^ 0x5C4ED,
-                path: [OUT2_REL, "out/image.eep", "out/image.eep.hex", "out/image"][r.usize(4)].to_string(),
+                // (the same file name in another directory: a writer that stages its text under
+                // the file name somewhere else mixes the two up)
+                path: [OUT2_REL, "out/image.eep", "out/image.eep.hex", "out/image", "out/other dir/image.hex"][r.usize(5)].to_string(),
             })
         } else {
             None
@@ -376,7 +387,15 @@ pub fn scenario_shape(tier: &str, base_seed: u64, g: u64) -> Scenario {
             OUT_REL.to_string()
         },
         missing_parent: false,
+        stale_sibling: None,
+        tmpdir_is_outdir: false,
     };
+    if sc.config != "duo" && r.chance(1, 8) {
+        sc.stale_sibling = Some([".lock", ".tmp", ".bak", "~", ".lock"][r.usize(5)].to_string());
+    }
+    if sc.config != "duo" && r.chance(1, 10) {
+        sc.tmpdir_is_outdir = true;
+    }
     // one scenario in sixteen (one duo in three) writes below a directory that does not exist
     if sc.config == "duo" && r.chance(1, 3) {
         sc.missing_parent = true;
@@ -491,6 +510,14 @@ pub fn execute(sc: &Scenario, scratch: &Scratch, budget: u64) -> Result<RunOut, 
             }
         }
     }
+    if let Some(suffix) = &sc.stale_sibling {
+        let mut n = out_path.clone().into_os_string();
+        n.push(suffix);
+        if let Some(d) = out_path.parent() {
+            let _ = std::fs::create_dir_all(d);
+        }
+        let _ = std::fs::write(PathBuf::from(n), b"left by a run that was killed\n");
+    }
     let mut st = SimState::new(&scratch.root_str());
     st.rules = rules_to_sim(&sc.rules)?;
     let prior: Option<(PathBuf, BuildResult)> = match sc.prior_failed_call.as_deref() {
@@ -524,6 +551,12 @@ pub fn execute(sc: &Scenario, scratch: &Scratch, budget: u64) -> Result<RunOut, 
         o.alone = alone;
         return Ok(o);
     }
+    let old_tmpdir = std::env::var_os("TMPDIR");
+    if sc.tmpdir_is_outdir {
+        if let Some(d) = out_path.parent() {
+            std::env::set_var("TMPDIR", d);
+        }
+    }
     let run = run_simulated(st, move || {
         if let Some((pp, pbr)) = prior {
             // the result of the earlier call is not judged here; it is expected to fail
@@ -537,6 +570,12 @@ pub fn execute(sc: &Scenario, scratch: &Scratch, budget: u64) -> Result<RunOut, 
         }
         r
     });
+    if sc.tmpdir_is_outdir {
+        match &old_tmpdir {
+            Some(v) => std::env::set_var("TMPDIR", v),
+            None => std::env::remove_var("TMPDIR"),
+        }
+    }
     if limit.is_some() {
         // in case of a panic inside the call
         restore_fsize(libc::RLIM_INFINITY);
@@ -606,6 +645,11 @@ fn execute_duo(sc: &Scenario, duo: &Duo, scratch: &Scratch, st: SimState, br: Bu
         BuildResult { code: other2, eeprom: img2, flash_size: 4194304, eeprom_size: 65536, ram_size: 8388608, ram_filling: 0, messages: vec![] }
     };
     let out2 = scratch.path(&duo.path);
+    if !sc.missing_parent {
+        if let Some(d) = out2.parent() {
+            let _ = std::fs::create_dir_all(d);
+        }
+    }
     let strategy = match duo.strategy.as_str() {
         "lockstep" => Strategy::RoundRobin,
         "sticky" => Strategy::Sticky(300),
@@ -825,6 +869,10 @@ fn place_faults(sc: &mut Scenario, prof: &RunOut, r: &mut Rng) {
         "open" => {
             let e = OPEN_ERRNOS[r.usize(OPEN_ERRNOS.len())];
             sc.rules = vec![RuleSpec::errno("open", &lossy(&sc.out_rel), 0, e, "open-fail")];
+            // a tree that takes an advisory lock on the output finds it busy half of the time
+            if prof.state.trace.iter().any(|e| e.call == Call::Flock) && r.chance(1, 2) {
+                sc.rules = vec![RuleSpec::errno("flock", &lossy(&sc.out_rel), 0, "EAGAIN", "lock-busy")];
+            }
         }
         "fsize" => {
             if file_len > 0 {
@@ -954,6 +1002,8 @@ pub fn worker(cfg: &WorkerCfg, emit: &mut dyn FnMut(Violation)) -> Stats {
         stats.probe("output_path_is_a_symbolic_link", sc.pre_kind == "symlink" || sc.pre_kind == "dangling");
         stats.probe("two_callers_below_the_same_missing_directory", sc.missing_parent && sc.duo.is_some() && out.switches > 0);
         stats.probe("output_directory_missing", sc.missing_parent);
+        stats.probe("stale_marker_file_next_to_the_output", sc.stale_sibling.is_some());
+        stats.probe("tmpdir_is_the_output_directory", sc.tmpdir_is_outdir);
         stats.probe("output_name_that_is_not_utf8", has_raw(&sc.out_rel));
         stats.probe("fault_fired_on_an_output_whose_name_is_not_utf8", has_raw(&sc.out_rel) && any_fired);
         stats.probe("output_name_without_extension_or_with_inner_dots", sc.out_rel != OUT_REL && !has_raw(&sc.out_rel));
